@@ -17,8 +17,6 @@ was called on; the formula whose stored clause object was handed out by iteratio
 object written to).  A transformation may change nothing that existed, must return a new object, and must extend the
 header by exactly one numbered entry.
 """
-import random
-
 from harness import common
 from harness.common import Case, req, enc_list, enc_str, enc_pairs, OPCODE, fmt_clauses, fmt_pbc, fmt_pbcs
 
@@ -128,6 +126,10 @@ def enc_instr(ins):
         return [28, ins[1], ins[2]]
     if k == "pbcset":
         return [29, ins[1], ins[2], ins[3], ins[4]]
+    if k == "normbip":
+        return [30, ins[1]]
+    if k == "bipaddedge":
+        return [31, ins[1], ins[2], ins[3]]
     raise ValueError("unknown instruction " + repr(ins))
 
 
@@ -272,6 +274,11 @@ def execute(regs, ins):
             raise IndexError("term index")
         c[ins[2]] = (ins[3], ins[4])
         return None
+    if k == "normbip":
+        return G.BipartiteGraph.normalize(regs[ins[1]])
+    if k == "bipaddedge":
+        regs[ins[1]].add_edge(ins[2], ins[3])
+        return None
     raise ValueError("unknown instruction " + repr(ins))
 
 
@@ -328,7 +335,7 @@ def fmt_reg(o):
     if isinstance(o, ClausesView):
         return "V {}".format(len(o))
     if isinstance(o, G.BipartiteGraph):
-        return "G"
+        return "G {} {} {}".format(o.left_order(), o.right_order(), " ".join(str(x) for x in enc_pairs(o.edges())))
     if is_pbc(o):
         return "C " + fmt_pbc(o)
     if is_intlist(o):
@@ -370,7 +377,6 @@ def dump(outs, regs):
 
 def impl_of(prog):
     def impl():
-        random.seed(12345)      # no modelled instruction draws; a draw would show as a different answer in the second pass
         outs, regs = run_real(prog)
         return dump(outs, regs)
     return impl
@@ -392,7 +398,9 @@ def deep(o):
     if isinstance(o, ClausesView):
         return ("V",)           # a view is live by design: not part of the snapshot discipline
     if isinstance(o, G.BipartiteGraph):
-        return ("G", o.left_order(), o.right_order(), sorted(o.edges()), o.name)
+        return ("G", o.left_order(), o.right_order(), list(o.edges()), o.name,
+                [list(o.right_neighbors(u)) for u in range(1, o.left_order() + 1)],
+                [list(o.left_neighbors(v)) for v in range(1, o.right_order() + 1)])
     if isinstance(o, list):
         return ("L", [list(x) if isinstance(x, list) else x for x in o])
     return ("?",)
@@ -404,7 +412,6 @@ def is_formula(o):
 
 def oracle_of(prog):
     def oracle():
-        random.seed(12345)
         regs = []
         owner = []          # per register: set of formula registers that may change when this object is written to
         elem_owner = []     # per register (lists of lists): owners of the elements
@@ -419,7 +426,7 @@ def oracle_of(prog):
             if k in ("addclause", "addclausegen", "addfrom", "hdrset", "updvar", "newvar", "newblock", "describe",
                      "addlinear", "opbaddclause", "opbaddconstraint", "opbcard"):
                 allowed = {ins[1]}
-            elif k in ("setitem", "append", "pbcset"):
+            elif k in ("setitem", "append", "pbcset", "bipaddedge"):
                 target = regs[ins[1]]
                 allowed = set(owner[ins[1]])
             elif k in ("iteritem", "opbiteritem"):
@@ -460,6 +467,7 @@ def oracle_of(prog):
                     legit = j in allowed
                 elif target is not None:
                     legit = (o is target) or (isinstance(o, list) and any(x is target for x in o))
+                    # O1 (documented by variables.py): a formula built from a graph refers to it; not produced by these suites
                 if not legit:
                     return {"program": prog, "at_instruction": pc, "instruction": ins, "register_changed": j,
                             "was": repr(snaps[j])[:300], "now": repr(now)[:300]}
@@ -502,7 +510,7 @@ TRANS_K = ["xor", "or", "maj", "eq", "neq", "one", "lift"]
 
 KIND_OF_INSTR = {"newcnf": "F", "newopb": "O", "mklist": "I", "mklists": "LL", "getitem": "I", "iteritem": "I", "view": "V",
                  "viewget": "I", "viewslice": "LL", "viewiter": "I", "elem": "I", "trans": "F", "mkbip": "G", "mkpbc": "C",
-                 "opbgetitem": "C", "opbiteritem": "C"}
+                 "opbgetitem": "C", "opbiteritem": "C", "normbip": "G"}
 
 
 def kinds_of(prog, regs):
@@ -592,7 +600,7 @@ def gen_prog(rng, length):
     emit(["mklist", rand_lits(rng, zero=0)])
     weights = [("newcnf", 2), ("mklist", 6), ("addclause", 7), ("addclausegen", 3), ("mklists", 3), ("addfrom", 3),
                ("getitem", 5), ("iteritem", 8), ("view", 3), ("viewop", 7), ("elem", 4), ("write", 14), ("hdrset", 5),
-               ("updvar", 2), ("newgroup", 4), ("describe", 2), ("addlinear", 6), ("trans", 16), ("opb", 10)]
+               ("updvar", 2), ("newgroup", 4), ("describe", 2), ("addlinear", 6), ("trans", 16), ("opb", 10), ("graph", 3)]
     bag = [w for w, k in weights for _ in range(k)]
     while len(prog) < length:
         kd = kinds_of(prog, regs)
@@ -682,6 +690,15 @@ def gen_prog(rng, length):
                 emit(["opbiteritem", O, rng.randint(-1, len(regs[O]))])
             elif kd["C"]:
                 emit(["pbcset", rng.choice(kd["C"]), rng.randint(0, 2), rng.choice([1, 5]), rng.choice([1, -3])])
+        elif what == "graph" and kd["G"]:
+            g = rng.choice(kd["G"])
+            if rng.random() < .4:
+                emit(["normbip", g])
+            else:
+                emit(["bipaddedge", g, rng.randint(0, regs[g].left_order() + 1), rng.randint(1, regs[g].right_order())])
+                cand = [f for f in kd["F"] if small(regs[f]) and regs[f].number_of_variables() == regs[g].left_order()]
+                if cand:
+                    emit(["trans", rng.choice(cand), "compress", g, rng.choice([0, 1])])
     return prog
 
 
@@ -716,7 +733,9 @@ def scenarios():
     # compression graph: read only, same object afterwards
     cg = [["newcnf", "c"], ["addclausegen", 0, [1, -2], True, "tuple"], ["addclausegen", 0, [2, 3], True, "tuple"],
           ["mkbip", 3, 4, [(1, 1), (1, 2), (2, 2), (2, 3), (3, 4), (3, 1), (1, 4)]], ["trans", 0, "compress", 3, 0],
-          ["trans", 0, "compress", 3, 1], ["trans", 0, "compress", 3, 2], ["mkbip", 2, 2, [(1, 1)]], ["trans", 0, "compress", 7, 0]]
+          ["trans", 0, "compress", 3, 1], ["trans", 0, "compress", 3, 2], ["mkbip", 2, 2, [(1, 1)]], ["trans", 0, "compress", 7, 0],
+          ["normbip", 3], ["bipaddedge", 9, 2, 1], ["trans", 0, "compress", 3, 0], ["bipaddedge", 3, 9, 9], ["bipaddedge", 3, 2, 1],
+          ["trans", 0, "compress", 9, 1], ["iteritem", 4, 0], ["setitem", 15, 0, 3]]
     out.append(("compress/graph", cg))
     # `!=` on a caller's list: untouched; then written to: the formula does not move
     for k in (0, 1, 2, 3, 4, -1):
